@@ -25,3 +25,11 @@ Example ex_body_order :
   ord_a (fst (anf_fn 10 ex_body 0)) = [EvOp (DCall 1); EvIf [EvOp (DCall 1)] []; EvOp (DCall 2)]
   /\ (depth ex_body <= 10)%nat.
 Proof. split; [reflexivity|cbn; lia]. Qed.
+
+(** The full property also asks that the right operand of && / || is evaluated only when the left one does
+    not decide. That part is false of the faithful model (and of anf.rs: known finding
+    C09-and-or-not-short-circuit): in `false && noisy()` the call is performed unconditionally, before the
+    operator, outside any branch. 4288100 is the operator name And read in base 256. *)
+Example short_circuit_refuted :
+  ord_a (fst (anf_fn 5 (LBin 4288100 (LPrim [102]) (LCall (LVar [110]) [])) 0)) = [EvOp (DCall 0); EvOp (DBin 4288100)].
+Proof. reflexivity. Qed.
